@@ -7,6 +7,67 @@ from harness.checks import dscommon
 replay = dscommon.replay
 
 
+def _legend_chunk(objs):
+    """the climatology never appears as a scored input or legend entry: one legend entry / table column per scored input, whatever the
+    files are called (same base name in different directories included), with -c and with -C"""
+    import io
+    import os
+    import sys
+    from harness import dsreplay, table, materialize as mat
+    from harness.dsreplay import quiet, exc_site
+    import verif.driver
+    import verif.input
+    import verif.data
+    out = []
+    wd = par.workdir()
+    for o in objs:
+        n = len(o["inputs"])
+        paths = []
+        for k, inp in enumerate(o["inputs"]):
+            d = os.path.join(wd, "exp%d" % k)
+            os.makedirs(d, exist_ok=True)
+            p = os.path.join(d, "t2m.txt")            # every scored input has the same base name
+            mat.write_text(p, inp)
+            paths.append(p)
+        d = os.path.join(wd, "clim")
+        os.makedirs(d, exist_ok=True)
+        climp = os.path.join(d, "normals.txt")
+        mat.write_text(climp, o["clim"])
+        rep = {"kind": "clim-legend", "dataset": {k: o[k] for k in o if k != "req"}}
+        try:
+            with quiet():
+                data = verif.data.Data([verif.input.get_input(p) for p in paths], clim=verif.input.get_input(climp), clim_type=o["climType"])
+                leg = list(data.get_legend())
+            if len(leg) != n or any("normals" in str(x) for x in leg):
+                out.append(("clim:legend", "%d scored inputs + climatology (%s): the legend is %r" % (n, o["climType"], leg), rep))
+            old = sys.stdout
+            sys.stdout = buf = io.StringIO()
+            try:
+                verif.driver.run(["verif"] + paths + ["-c" if o["climType"] == "subtract" else "-C", climp, "-m", "mae", "-x", "leadtime", "-type", "csv"])
+            except SystemExit:
+                pass
+            finally:
+                sys.stdout = old
+            header, rows = table.parse(buf.getvalue(), "csv")
+            if header and (len(header) != 1 + n or any("normals" in h for h in header)):
+                out.append(("clim:table-columns", "%d scored inputs + climatology: the csv header is %r" % (n, header), rep))
+        except Exception as e:
+            out.append((exc_site(e), "legend of %d inputs + climatology: %r" % (n, e), rep))
+    return len(objs), out
+
+
+def _legend(ctx, family, limit):
+    import random
+    from harness import tlc
+    res = tlc.run("MC_Dataset", "MC_Dataset_" + family, tag=ctx.pid + "_leg_" + family, timeout_s=900)
+    objs = [o for o in res.emitted if o.get("hasClim") and not o["err"]]
+    objs = random.Random(ctx.seed + 3).sample(objs, min(limit, len(objs)))
+    for n, divs in par.pmap(_legend_chunk, [objs[i:i + 5] for i in range(0, len(objs), 5)], chunk=1):
+        ctx.evaluations += 2 * n
+        for site, detail, rep in divs:
+            ctx.diverge(site, rep, detail=detail)
+
+
 def run(ctx):
     ctx.rule = ("case = (1-2 inputs with missing cells, climatology with its own coverage/order/missing cells/zeros, subtract|divide) "
                 "x request menu; non-trivial = every case (a climatology is always present)")
@@ -17,6 +78,8 @@ def run(ctx):
         # the whole request menu on ONE Data object (whole-array requests before the slices): the climatology is removed exactly once
         dscommon.run_family(ctx, "C14", fmt="text", limit=150, fresh=False, always_nontrivial=True)
         dscommon.run_family(ctx, "C14Two", fmt="text", limit=100, fresh=False, always_nontrivial=True)
+        _legend(ctx, "C14Two", 40)
+        _legend(ctx, "C14", 20)
     else:
         dscommon.run_family(ctx, "C14", fmt="text", always_nontrivial=True)
         dscommon.run_family(ctx, "C14Two", fmt="text", always_nontrivial=True)
@@ -24,5 +87,7 @@ def run(ctx):
         dscommon.run_family(ctx, "C01Clim", fmt="text", always_nontrivial=True)
         dscommon.run_family(ctx, "C14", fmt="text", fresh=False, always_nontrivial=True)
         dscommon.run_family(ctx, "C14Two", fmt="text", fresh=False, always_nontrivial=True)
+        _legend(ctx, "C14Two", 400)
+        _legend(ctx, "C14", 200)
         ctx.exhaustive = True
     par.clean_workdirs()
